@@ -5,6 +5,7 @@ import Plonk.Model.Bls
 import Plonk.Model.Transcript
 import Plonk.Model.Kzg
 import Plonk.Model.Verifier
+import Plonk.Model.Prover
 import Plonk.Driver.Parse
 import Plonk.Driver.Kernels
 import Plonk.Driver.Prog
@@ -235,5 +236,44 @@ def verifyAnswer (cache : Option (String × Except VDecErr VerifierM)) (toks : L
       | none => ("err", cache)
     | none => ("bad-request", cache)
   | _ => ("bad-request", cache)
+
+end Plonk.Driver
+
+namespace Plonk.Driver
+open Plonk
+
+def pErrName : PErr → String
+  | .compile e => "compile:" ++ e.name
+  | .invalidCircuitSize => "sizeerr"
+  | .circuitUnsatisfied => "unsat"
+  | .panicSlice => "panic"
+  | .panicDenominator => "panic"
+  | .notEnoughDraws => "draws"
+  | .commit e => "commit:" ++ e.name
+
+/-- `prove <deg> <d1> <d2> <d3> <label> <14 draws comma separated> <version> || <progA> || <progB>` -/
+def proveAnswer (line : String) : String :=
+  match line.splitOn "||" with
+  | [head, a, b] =>
+    match (head.splitOn " ").filter (· ≠ "") with
+    | ["prove", deg, d1, d2, d3, label, draws, ver] =>
+      match srsOf? deg d1 d2 d3, parseBytes? label, optionAll drawOf? (draws.splitOn ","), verName? ver with
+      | some (.ok srs), some label, some draws, some ver =>
+        let sa := runProg a
+        let sb := runProg b
+        if sa.bad.isSome || sb.bad.isSome then "bad-op" else
+        match compile srs label sa.c with
+        | .error e => "err:" ++ pErrName e
+        | .ok k =>
+          let vb := (k.verifier srs).toBytes
+          let vh := toHex (hashList vb)
+          if ver == .v1 then s!"err:UnsupportedProvingVersion vh={vh}" else
+          match prove k sb.c draws (ver == .v3) with
+          | .error e => s!"err:{pErrName e} vh={vh}"
+          | .ok tr => s!"proof={showBytes tr.proof.toBytes} pis={showList tr.pis} vh={vh} calls={tr.drawsUsed}"
+      | some (.error e), _, _, _ => "err:srs:" ++ e.name
+      | _, _, _, _ => "bad-request"
+    | _ => "bad-request"
+  | _ => "bad-request"
 
 end Plonk.Driver
